@@ -67,6 +67,18 @@ Theorem C17_key_collisions :
 Proof. exact (conj key_collision_comma key_collision_empty). Qed.
 Print Assumptions C17_key_collisions.
 
+(* "in any order": the key does not depend on the order of the question (no guard), so after a
+   miss that obtained an answer the same user's permuted question hits and repeats that answer. *)
+Theorem C17_key_order_insensitive : forall u gs gs', Permutation gs gs' -> gc_key u gs = gc_key u gs'.
+Proof. exact gc_key_order_insensitive. Qed.
+Print Assumptions C17_key_order_insensitive.
+
+Theorem C17_permuted_question_hits : forall w u tu gs r w1 tu' gs' a',
+  step w (GCAsk u tu gs (DOk r)) = (w1, OAns (Some r) true []) -> Permutation gs gs' ->
+  step w1 (GCAsk u tu' gs' a') = (w1, OAns (Some r) false []).
+Proof. exact permuted_question_hits. Qed.
+Print Assumptions C17_permuted_question_hits.
+
 (* Update semantics, as a refinement: after any schedule the member-set map equals the abstract map
    computed from the accepted UpdateEnd events alone (Ok replaces, NotFound drops, Err keeps) ... *)
 Theorem C17_update_semantics : forall evs w log,
